@@ -57,7 +57,7 @@ func (e *Exec) step(f *Frame, instr ssa.Instruction) {
 		f.locals[in] = a.Elems[in.Field]
 	case *ssa.IndexAddr:
 		x := e.get(f, in.X)
-		idx := e.concreteInt(e.get(f, in.Index), "index")
+		idx := e.concreteIntSt(f.st, e.get(f, in.Index), "index")
 		switch xv := x.(type) {
 		case Slice:
 			if idx < 0 || idx >= xv.Len {
@@ -81,7 +81,7 @@ func (e *Exec) step(f *Frame, instr ssa.Instruction) {
 		}
 	case *ssa.Index:
 		x := e.get(f, in.X)
-		idx := e.concreteInt(e.get(f, in.Index), "index")
+		idx := e.concreteIntSt(f.st, e.get(f, in.Index), "index")
 		switch xv := x.(type) {
 		case *Agg:
 			if idx < 0 || idx >= len(xv.Elems) {
@@ -237,8 +237,94 @@ type rangeIter struct {
 
 // raise switches the frame into panicking mode.
 func (e *Exec) raise(f *Frame, v Value) {
-	f.unwinding = &panicRec{val: v}
+	pos := ""
+	if f.block != nil && f.pc < len(f.block.Instrs) {
+		pos = e.Prog.Fset.Position(f.block.Instrs[f.pc].Pos()).String()
+	}
+	f.unwinding = &panicRec{val: v, where: f.fn.String() + " " + pos}
 	f.pc-- // compensate pc++ of caller for non-control instructions; unwinding ignores pc
+}
+
+// sliceByVars returns the conjuncts of cs (and definitions) reachable within the given number of hops
+// from the variables of t. Any subset of the path condition is a sound basis for an unsat answer.
+func (e *Exec) sliceByVars(cs []*Term, t *Term, hops int) []*Term {
+	vars := map[int]bool{}
+	for _, v := range VarsOf([]*Term{t}) {
+		vars[v.id] = true
+	}
+	all := append(append([]*Term{}, cs...), e.Defs...)
+	used := make([]bool, len(all))
+	var out []*Term
+	for h := 0; h < hops; h++ {
+		var newVars []*Term
+		for i, c := range all {
+			if used[i] {
+				continue
+			}
+			cv := VarsOf([]*Term{c})
+			hit := false
+			for _, v := range cv {
+				if vars[v.id] {
+					hit = true
+					break
+				}
+			}
+			if hit {
+				used[i] = true
+				out = append(out, c)
+				newVars = append(newVars, cv...)
+			}
+		}
+		for _, v := range newVars {
+			vars[v.id] = true
+		}
+	}
+	return out
+}
+
+// concretize tries to show that t has a single possible value under the path condition.
+func (e *Exec) concretize(st *State, t *Term) (*Term, bool) {
+	if t.Op == OpConst {
+		return t, true
+	}
+	key := "conc:" + pcKey(st.PC, t)
+	if v, ok := e.defKey[key]; ok {
+		if v[0] == nil {
+			return nil, false
+		}
+		return v[0], true
+	}
+	probe := e.TS.Var("conc!probe", SInt)
+	for _, hops := range []int{1, 2, 4, 1000} {
+		asserts := e.sliceByVars(st.PC, t, hops)
+		e.BranchQueries++
+		r, m, _, _ := e.Solver.Check(append(append([]*Term{}, asserts...), e.TS.Eq(probe, t)), e.ConcretizeTimeoutMs, true, e.branchSolver())
+		if r != Sat || m == nil {
+			continue
+		}
+		val, ok := m.Ints["conc!probe"]
+		if !ok {
+			continue
+		}
+		c := e.TS.Int(val)
+		e.BranchQueries++
+		r2, _, _, _ := e.Solver.Check(append(append([]*Term{}, asserts...), e.TS.Ne(t, c)), e.ConcretizeTimeoutMs, false)
+		if r2 == Unsat {
+			e.defKey[key] = []*Term{c}
+			return c, true
+		}
+	}
+	e.defKey[key] = []*Term{nil}
+	return nil, false
+}
+
+func (e *Exec) concreteIntSt(st *State, v Value, what string) int {
+	if t, ok := v.(*Term); ok && t.Op != OpConst && t.Sort == SInt && st != nil && !e.inInit {
+		if c, ok := e.concretize(st, t); ok {
+			v = c
+		}
+	}
+	return e.concreteInt(v, what)
 }
 
 func (e *Exec) concreteInt(v Value, what string) int {
